@@ -72,6 +72,7 @@ static int callback_connected(void *, int);
 static int callback_read_header(void *, int);
 static int gotheaders(struct http_cookie *, uint8_t *, size_t);
 static int callback_chunkedheader(void *, int);
+static int callback_chunkedeol(void *, int);
 static int get_body_gotclen(struct http_cookie *, size_t);
 static int callback_read_toeof(void *, int);
 
@@ -630,11 +631,8 @@ callback_readdata(void * cookie, int status)
 	if (H->readlen == 0) {
 		/* Was this just one chunk from a chunked encoding? */
 		if (H->chunked) {
-			/* Strip the trailing EOL. */
-			H->res.bodylen -= 2;
-
-			/* Get the next chunk. */
-			return (callback_chunkedheader(H, 0));
+			/* Skip the EOL which follows the chunk data. */
+			return (callback_chunkedeol(H, 0));
 		}
 
 		/* If not, just do the callback. */
@@ -719,11 +717,9 @@ callback_chunkedheader(void * cookie, int status)
 		/* Otherwise, check that it's not too big. */
 		if (clen > H->res_bodylen_max - H->res.bodylen)
 			return (toobig(H));
-		if (clen > SIZE_MAX - 2)
-			return (toobig(H));
 
-		/* Read the chunk data plus extra EOL (we strip it later). */
-		H->readlen = clen + 2;
+		/* Read the chunk data (we skip the EOL after it later). */
+		H->readlen = clen;
 		return (callback_readdata(H, 0));
 	}
 
@@ -737,6 +733,37 @@ callback_chunkedheader(void * cookie, int status)
 
 	/* Success! */
 	return (0);
+}
+
+/* Skip the EOL which follows a chunk's data, then read the next chunk. */
+static int
+callback_chunkedeol(void * cookie, int status)
+{
+	struct http_cookie * H = cookie;
+	uint8_t * buf;
+	size_t buflen;
+
+	/* Did we fail?  (EOF before the end of a chunk is a failure.) */
+	if (status)
+		return (fail(H));
+
+	/* Peek at the incoming data. */
+	netbuf_read_peek(H->R, &buf, &buflen);
+
+	/* If the EOL hasn't arrived yet, wait for it. */
+	if (buflen < 2) {
+		if (netbuf_read_wait(H->R, 2, callback_chunkedeol, H))
+			return (die(H));
+
+		/* Success! */
+		return (0);
+	}
+
+	/* Consume the EOL; it is not part of the response body. */
+	netbuf_read_consume(H->R, 2);
+
+	/* Read the next chunked header line. */
+	return (callback_chunkedheader(H, 0));
 }
 
 /* Read the response body based on the provided Content-Length. */
